@@ -254,6 +254,22 @@ def from_str_lemmas(F, rep, rule="C16.6"):
         guarded(rep, rule, okey, "from_dna_string", g)
 
 
+    # text that begins and ends with white space (a line with its terminator, padded fields): every character is a position of the string
+    okey = "from_dna_string/white-space-at-the-ends"
+
+    def g2(okey=okey):
+        chars = [10, 32] + [ord(c) for c in "ACGTacgtNn-"] + [32, 9, 13, 10]
+        r, _ = run_inst(F, "dna_string::DnaString::from_dna_string", [Ref(Cell(Arr([Int(8, False, val=c) for c in chars]), "str"))], Harness())
+        ws = [[ZERO] * 64 for _ in range(1)]
+        for i, c in enumerate(chars):
+            v = code.get(c, 0)
+            ws[i // 32][63 - 2 * (i % 32)] = ONE if v & 2 else ZERO
+            ws[i // 32][62 - 2 * (i % 32)] = ONE if v & 1 else ZERO
+        expect_dna(rep, rule, okey, dt, r, ws, len(chars), "from_dna_string of %d characters that start and end with white space: one base per character "
+                   "(white space, like every non-ACGT character, becomes A), as in the byte constructor" % len(chars))
+    guarded(rep, rule, okey, "from_dna_string", g2)
+
+
 class RunsOracles(Oracles):
     """every input character is of one of four kinds, chosen by an oracle: an ACGT letter (which one stays symbolic), the letter 'N', the
     letter 'n', or some other non-ACGT character.  The byte tables and comparisons with character constants answer accordingly."""
